@@ -51,9 +51,17 @@ def make_seg(i, variant):
     return sec_seg([10 + i, 20 + i], False)
 
 
+QUARTERS = ('NE', 'NW', 'SE', 'SW', 'N½SE', 'S½NW')
+
+
+def filler_text(f, i):
+    """filler f at position i; its words are made unique per position so that an oracle can tell the blocks apart"""
+    return FILLERS[f].replace('NE', QUARTERS[i % len(QUARTERS)]).replace('W/2', ('W/2', 'E/2', 'S/2', 'N/2')[i % 4])
+
+
 def build_doc(variants, fillers):
     segs = [make_seg(i, v) for i, v in enumerate(variants)]
-    return Doc([FILLERS[f] for f in fillers], segs)
+    return Doc([filler_text(f, i) for i, f in enumerate(fillers)], segs)
 
 
 def run_parser(doc, mode, source='SRC', parse_qq=False):
